@@ -16,22 +16,36 @@ EXTENDS Naturals, Sequences, FiniteSets, TLC
 
 CONSTANT Deviations      \* set of deviation tags the code is known to have
 
-CidrCfgs == {"none", "valid", "mixed", "allinvalid"}
+\* The trusted-proxy list is a SET of entry classes; the configuration is named by ToString of that
+\* set (the harness parses the name back).  v4net / v6net are valid networks; garbage, badmask
+\* (address and mask out of range), barev4 and barev6 (an address without a mask) are entries the
+\* parser rejects and ignores.  No peer class equals a bare address, so the cases stay valid if
+\* bare addresses were ever accepted as host routes.
+Entries  == {"v4net", "v6net", "garbage", "badmask", "barev4", "barev6"}
+CidrCfgs == {ToString(S) : S \in SUBSET Entries}
+EntriesOf(c) == CHOOSE S \in SUBSET Entries : ToString(S) = c.cidr
+\* the four configurations every header combination is crossed with
+LegacyLists == {{}, {"v4net", "v6net"}, {"garbage", "v4net", "badmask", "v6net"}, {"garbage", "barev4", "badmask"}}
 Peers    == {"v4in", "v4out", "v6in", "v6out", "unparsable", "absent"}
 CFs      == {"absent", "ip", "ipspaces", "garbage"}
 XFFs     == {"absent", "single", "chain", "garbage", "garbagechain"}
 Protos   == {"absent", "http", "https", "HTTPS", "chain", "garbage"}
 Bases    == {"http", "https", "empty"}
 
-Cases == [trust : BOOLEAN, cidr : CidrCfgs, peer : Peers, cf : CFs, xff : XFFs,
+\* every header combination x the four legacy lists, plus every one of the 64 lists x a reduced
+\* header set (the list only interacts with trust and peer)
+Cases == [trust : BOOLEAN, cidr : {ToString(S) : S \in LegacyLists}, peer : Peers, cf : CFs, xff : XFFs,
           proto : Protos, base : Bases]
+         \cup [trust : BOOLEAN, cidr : CidrCfgs, peer : Peers, cf : {"absent", "ip"}, xff : {"absent", "single"},
+                proto : {"absent", "https"}, base : {"http"}]
 
 \* ------------------------------------------------------------------ model
 PeerParsable(c) == c.peer \in {"v4in", "v4out", "v6in", "v6out"}
-PeerInside(c)   == c.peer \in {"v4in", "v6in"}
+PeerInside(c)   == \/ c.peer = "v4in" /\ "v4net" \in EntriesOf(c)
+                   \/ c.peer = "v6in" /\ "v6net" \in EntriesOf(c)
 
-ListConfigured(c) == c.cidr # "none"
-ListUsable(c)     == c.cidr \in {"valid", "mixed"}
+ListConfigured(c) == EntriesOf(c) # {}
+ListUsable(c)     == EntriesOf(c) \cap {"v4net", "v6net"} # {}
 
 \* The property's notion of "this peer is a trusted proxy".
 TrustedIntended(c) ==
